@@ -285,15 +285,69 @@ def r6_fragments(ctx):
     ctx.assume("ColumnIterMut hands out non-overlapping column slices (cursor strictly increases)")
 
 
+def r7_batch_alignment(ctx):
+    """a batch closure that indexes shared (captured) data with its batch-local loop index, without
+    the batch offset, is position-independent only if every batch starts at a multiple of that
+    data's period: the batch size must be len / (thread count rounded to a power of two)."""
+    p = ctx.prog(CFG)
+    n_local = 0
+    for k, f in sorted(workspace_funcs(p).items()):
+        cs = [(bi, t) for bi, t in f.calls() if (callee_of(t) or {}).get("name") in ("par_chunks_mut", "par_chunks")
+              and is_rayon(callee_of(t)) and not f.is_cleanup(bi)]
+        sized = []
+        for bi, t in cs:
+            sl = f.slice_of_operand(t["a"][1], at=(bi, f.INF))
+            names = {(callee_of(f.term(b)) or {}).get("name") for b in sl["calls"]}
+            if names & {"rayon_num_threads", "current_num_threads"}:
+                sized.append((bi, t, sl, names))
+        if not sized:
+            continue
+        local_sites = []
+        for cf in p.closures_of(f.key):
+            if cf.argc != 3 or cf.local_ty(3) != "usize":
+                continue
+            for bi, t in cf.calls():
+                c = callee_of(t)
+                if cf.is_cleanup(bi) or not c or c.get("name") not in ("index", "index_mut", "get", "get_mut", "get_unchecked", "get_unchecked_mut") or len(t["a"]) != 2:
+                    continue
+                base = cf.slice_of_operand(t["a"][0], at=(bi, cf.INF))
+                idx = cf.slice_of_operand(t["a"][1], at=(bi, cf.INF))
+                from_env = any(pl[0] == 1 for pl in base["places"]) and 2 not in base["args"]
+                inames = {(callee_of(cf.term(b)) or {}).get("name") for b in idx["calls"]}
+                if from_env and 3 not in idx["args"] and "next" in inames:
+                    local_sites.append((cf, t))
+        for cf, t in local_sites:
+            n_local += 1
+            ok = True
+            why = ""
+            for bi, st, sl, names in sized:
+                divs = [s for l in sl["locals"] for d in f.defs(l) if d["kind"] == "assign" for s in [d] if d["rv"][0] == "bin" and d["rv"][1].startswith("Div")]
+                aligned = False
+                for d in divs:
+                    ds = f.slice_of_operand(d["rv"][3], at=(d["bb"], d.get("idx", 0)))
+                    dn = {(callee_of(f.term(b)) or {}).get("name") for b in ds["calls"]}
+                    if "next_power_of_two" in dn:
+                        aligned = True
+                if not aligned:
+                    ok = False
+                    why = "batch size at %s is not len / threads.next_power_of_two() (callees in its slice: %s)" % (st["sp"]["at"], sorted(x for x in names if x))
+            ctx.ob("R7", "batch-local-index-needs-aligned-batches", ok,
+                   "shared data is indexed with the batch-local index (no batch offset); batches start at multiples of a power of two: size = len / threads.next_power_of_two()"
+                   if ok else "shared data is indexed with the batch-local index (no batch offset) but " + why, cf, t["sp"]["at"], cfg=CFG)
+    if n_local < 1:
+        raise AnchorLost("expected the batch-local periodic index in acc_column's batch closure")
+
+
 def run(ctx):
     ctx.rule("R1", "no ambient-input effect reachable from the prover entry points in the concurrent build", 1)
     ctx.rule("R2", "every rayon combinator is indexed / order-preserving; the only schedule-dependent one is find_any in grind_query_seed, whose result flows only into pow_nonce", 2)
     ctx.rule("R3", "closures handed to rayon combinators capture no shared mutable state (three frozen unsafe re-borrows reviewed)", 20)
     ctx.rule("R4", "chunk offsets inside parallel closures are chunk index * the very value that sizes the chunks; the thread count reaches only sizes", 5)
     ctx.rule("R5", "functions whose MIR differs between the two builds are exactly parallel-combinator code covered by R2-R4", 1)
+    ctx.rule("R7", "batch closures that index captured data with the batch-local index (no offset) get batches sized len / threads.next_power_of_two()", 1)
     ctx.rule("R6", "trace fragments: chunks_mut(len) per column and offset = i * len with the same len", 2)
     for rid, fn in (("R1", r1_ambient), ("R2", r2_combinators), ("R3", r3_parallel_writes), ("R4", r4_thread_count),
-                    ("R5", r5_cfg_dependent), ("R6", r6_fragments)):
+                    ("R5", r5_cfg_dependent), ("R6", r6_fragments), ("R7", r7_batch_alignment)):
         ctx.guard(rid, fn)
     ctx.assume("that the parallel algorithms compute the same values as the serial ones for every thread count is value-level (C12/C14/C18) and not decided")
     ctx.assume("the async prover variant (maybe_async coroutine MIR) is not analysed")
